@@ -2745,13 +2745,24 @@ class Cond(Generic[X, R], GFI[X, R]):
         **kwargs,
     ) -> tuple[Trace[X, R], Weight, X]:
         (check, *rest_args) = args
-        new_tr, w, discard = self.callee.update(tr.trs[0], x, *rest_args, **kwargs)
-        new_tr_, w_, discard_ = self.callee_.update(tr.trs[1], x, *rest_args, **kwargs)
-        # Merge discarded values
-        merged_discard, _ = self.callee.merge(discard, discard_)
+        # Unconstrained addresses keep the values visible in the old trace
+        # (those of the branch taken before), also when the branch switches.
+        old_choices = tr.get_choices()
+        if x is None:
+            x = old_choices
+        elif isinstance(x, dict) and isinstance(old_choices, dict):
+            x, _ = self.merge(old_choices, x)
+        new_tr, _, discard = self.callee.update(tr.trs[0], x, *rest_args, **kwargs)
+        new_tr_, _, discard_ = self.callee_.update(tr.trs[1], x, *rest_args, **kwargs)
+        # The discard holds the values that were visible under the old condition.
+        merged_discard, _ = self.merge(discard, discard_, tr.check)
+        new_cond_tr = CondTr(self, check, [new_tr, new_tr_])
+        # Density ratio between the new and the old visible trace; this is the
+        # per-branch weight when the branch is unchanged and also accounts for
+        # a switch of the branch taken.
         return (
-            CondTr(self, check, [new_tr, new_tr_]),
-            jnp.where(check, w, w_),
+            new_cond_tr,
+            tr.get_score() - new_cond_tr.get_score(),
             merged_discard,
         )
 
